@@ -49,7 +49,9 @@ GRV_CMD(features) {
             if (!fc.face) { report_fail("C18", "face with synthesised Feat/Sill/name tables failed to load", J(line, 500)); fc.key.clear(); continue; }
             bool okf = true;
             for (size_t k = 0; k < fc.defs.size(); ++k) {
-                const gr_feature_ref *r = gr_face_find_fref(fc.face, FEAT_ID0 + gr_uint32(k));
+                const gr_uint32 fid = v->has("ids") ? gr_uint32((*v)["ids"].a[k]->num()) : FEAT_ID0 + gr_uint32(k);
+                const gr_feature_ref *r = gr_face_find_fref(fc.face, fid);
+                if (r && gr_fref_id(r) != fid) { report_fail("C18", "gr_face_find_fref returns a feature with another id", J(line, 500)); okf = false; break; }
                 if (!r) { report_fail("C18", "gr_face_find_fref does not find feature " + std::to_string(k + 1), J(line, 500)); okf = false; break; }
                 fc.fref.push_back(r);
             }
